@@ -5,7 +5,7 @@ another (a dispatcher that falls off its end)."""
 import ast
 from typing import Dict, List, Optional, Set, Tuple
 
-from ..model import Repo, FunctionInfo, AnalysisError, walk_no_nested, src, call_name, ancestors
+from ..model import Repo, FunctionInfo, AnalysisError, walk_no_nested, src, call_name, ancestors, dotted
 from ..core import Ob, Rule, Mutant, mutate_module, find_def, replace_node, text_mutant, inconclusive
 from ..cfg import cfg_of
 
@@ -347,7 +347,74 @@ def mut_quantifiers(repo: Repo) -> List[Mutant]:
     return out
 
 
+# ------------------------------------------------------------------ methods called on freshly constructed objects exist
+def _class_offers(ci, name: str) -> Optional[bool]:
+    """True / False: the hierarchy of ci defines / does not define `name`; None: cannot tell (a base outside the repository, __getattr__)"""
+    for c in ci.mro():
+        if name in c.methods or name in c.annotations or name in c.class_assigns:
+            return True
+        if "__getattr__" in c.methods or "__getattribute__" in c.methods:
+            return None
+        for m in c.all_methods:
+            selfn = m.params()[0] if m.params() else "self"
+            for x in walk_no_nested(m.node):
+                if isinstance(x, ast.Attribute) and isinstance(x.ctx, ast.Store) and x.attr == name and isinstance(x.value, ast.Name) and x.value.id == selfn:
+                    return True
+                if isinstance(x, ast.Call) and call_name(x) == "setattr":
+                    return None
+    for c in ci.mro():
+        if len(c.bases) != len([b for b in c.base_names if b not in ("object", "ABC", "abc.ABC")]):
+            return None       # some base class is not part of the repository (or not resolved)
+    return False if not hasattr(object, name) else True
+
+
+def rule_resolve(repo: Repo) -> List[Ob]:
+    """v = Cls(...); ... v.m(...) : Cls is a class of the repository, v has no other definition -- then m must be defined somewhere in
+    Cls's hierarchy.  (What a type checker would say; the pinned tree has no type checker in its tool chain, and code that only runs
+    under a non-default option is not reached by the tests.)"""
+    obs = []
+    n = 0
+    for f in repo.functions:
+        if f.relpath.startswith(SCOPE_EXCLUDE):
+            continue
+        ctor_locals = {}
+        for st in walk_no_nested(f.node):
+            if isinstance(st, ast.Assign) and len(st.targets) == 1 and isinstance(st.targets[0], ast.Name) and isinstance(st.value, ast.Call):
+                d = dotted(st.value.func)
+                ci = repo.resolve_class(f.module, d) if d else None
+                if ci is not None:
+                    ctor_locals.setdefault(st.targets[0].id, []).append(ci)
+        if not ctor_locals:
+            continue
+        stores = {}
+        for x in walk_no_nested(f.node):
+            if isinstance(x, ast.Name) and isinstance(x.ctx, (ast.Store, ast.Del)):
+                stores[x.id] = stores.get(x.id, 0) + 1
+        for x in walk_no_nested(f.node):
+            if isinstance(x, ast.Call) and isinstance(x.func, ast.Attribute) and isinstance(x.func.value, ast.Name):
+                v = x.func.value.id
+                if v in ctor_locals and len(ctor_locals[v]) == 1 and stores.get(v, 0) == 1 and v not in f.params():
+                    ci = ctor_locals[v][0]
+                    has = _class_offers(ci, x.func.attr)
+                    n += 1
+                    key = f"{f.relpath}::{f.qualname}::{ci.name}.{x.func.attr}"
+                    if has is False:
+                        obs.append(Ob("E-resolve", key, f.relpath, x.lineno, f.qualname, False,
+                                      f"`{src(x)[:60]}`: `{v}` is a {ci.name} and no class of its hierarchy defines `{x.func.attr}`: AttributeError as soon as this statement runs"))
+                    elif has is True:
+                        obs.append(Ob("E-resolve", key, f.relpath, x.lineno, f.qualname, True, f"{ci.name}.{x.func.attr} is defined", trivial=True))
+    if n < 10:
+        raise AnalysisError(f"only {n} method calls on freshly constructed repository objects found")
+    return obs
+
+
+def mut_resolve(repo: Repo) -> List[Mutant]:
+    ov = text_mutant(repo, "program/transformer/conditions_to_arithm.py", "support = assign.distribution.get_support()", "support = dist_assign.get_assign_support()")
+    return [Mutant("method-that-does-not-exist", ov, "fire", "DistAssignment.get_assign_support", control=True)] if ov else []
+
+
 RULES = {
+    "RESOLVE": Rule("E-resolve", rule_resolve, 10, "a method called on a freshly constructed object of a repository class is defined in that class's hierarchy", mut_resolve, soft=True),
     "EXCEPT": Rule("E-except", rule_except_discipline, 3, "every exception handler re-raises on all its paths, or is a reviewed complete fallback", mut_except_discipline),
     "QUANT": Rule("E-quantifier", rule_quantifiers, 8, "reviewed safety-relevant any()/all() guards keep their quantifier (negations folded: De Morgan spellings are equal)", mut_quantifiers),
     "FALLTHROUGH": Rule("E-fallthrough", rule_fallthrough, 1, "no function returns a value on some paths and ends without one on others (an unhandled case is an error, not None)", mut_fallthrough),
